@@ -7,6 +7,7 @@ import (
 	"go/token"
 	"go/types"
 	"os"
+	"regexp"
 	"sort"
 	"strings"
 
@@ -179,7 +180,9 @@ func (v *Verifier) callFunc(st *State, call *ssa.CallCommon, fn *ssa.Function, b
 				v.pendingFree = append(v.pendingFree, freeBinding{fv.Name(), bindings[i], fv.Type()})
 			}
 		}
+		v.e.calleeFn = fn
 		res := v.applyContract(st, fc, fn.Signature, v.paramNames(fn, fc), args, ins, shortKey(key))
+		v.e.calleeFn = nil
 		k(st, res)
 		return
 	}
@@ -192,7 +195,28 @@ func (v *Verifier) callFunc(st *State, call *ssa.CallCommon, fn *ssa.Function, b
 		if len(body.Blocks) > 0 && !v.e.info(body).hasLoop && !v.onStack(st, body) && st.top().depth < 8 {
 			// a generic body inlined for an instantiation: results take the instantiated types
 			rt := resultType(call.Signature())
-			k2 := func(st2 *State, res Value) { k(st2, v.coerceTo(res, rt)) }
+			caller := st.top()
+			k2 := func(st2 *State, res Value) {
+				v.e.lay.subst = caller.subst
+				k(st2, v.coerceTo(res, rt))
+			}
+			v.inlineSubst = nil
+			if os.Getenv("GOVC_DEBUG_INLINE") != "" {
+				fmt.Fprintf(os.Stderr, "inline %s body=%v origin=%v targs=%v synthetic=%q blocks=%d\n", key, body != fn, fn.Origin() != nil, fn.TypeArgs(), fn.Synthetic, len(fn.Blocks))
+			}
+			switch {
+			case body != fn:
+				v.inlineSubst = typeArgSubst(body, fn, caller.subst)
+			case strings.HasPrefix(caller.fn.Synthetic, "instantiation wrapper") && caller.fn.Origin() == fn:
+				// go/ssa calls a generic body through an instantiation wrapper that holds the type arguments
+				v.inlineSubst = typeArgSubst(fn, caller.fn, caller.subst)
+			case strings.HasPrefix(fn.Synthetic, "instantiation wrapper") && fn.Origin() != nil:
+				// the wrapper's own instructions mention the generic body's types (the result tuple of its call)
+				v.inlineSubst = typeArgSubst(fn.Origin(), fn, caller.subst)
+			}
+			if os.Getenv("GOVC_DEBUG_INLINE") != "" {
+				fmt.Fprintf(os.Stderr, "   subst=%v callerSynthetic=%q sameOrigin=%v\n", v.inlineSubst, caller.fn.Synthetic, caller.fn.Origin() == fn)
+			}
 			v.inline(st, body, bindings, args, k2)
 			return
 		}
@@ -236,8 +260,48 @@ func (v *Verifier) inline(st *State, fn *ssa.Function, bindings []Value, args []
 		fr.regs[fv] = bindings[i]
 	}
 	fr.ret = k
+	fr.subst = v.inlineSubst
+	v.inlineSubst = nil
 	st.frames = append(st.frames, fr)
 	v.enterBlock(st, nil, fn.Blocks[0])
+}
+
+// typeArgSubst maps the type parameters of a generic body to the type arguments of the instance being
+// inlined. Only arguments whose layout differs from the opaque single slot matter: a type parameter of
+// the function under verification whose constraint has methods (laid out like an interface value).
+func typeArgSubst(body, inst *ssa.Function, outer map[*types.TypeParam]types.Type) map[*types.TypeParam]types.Type {
+	targs := inst.TypeArgs()
+	if len(targs) == 0 {
+		return nil
+	}
+	var tps *types.TypeParamList
+	if sig := body.Signature; sig.RecvTypeParams() != nil && sig.RecvTypeParams().Len() > 0 {
+		tps = sig.RecvTypeParams()
+	} else {
+		tps = body.Signature.TypeParams()
+	}
+	if tps == nil || tps.Len() != len(targs) {
+		return nil
+	}
+	var out map[*types.TypeParam]types.Type
+	for i := 0; i < tps.Len(); i++ {
+		a := targs[i]
+		if tp, ok := a.(*types.TypeParam); ok {
+			if o, ok := outer[tp]; ok {
+				a = o
+			}
+		}
+		if tp, isTP := a.(*types.TypeParam); isTP {
+			if ci, ok := tp.Constraint().Underlying().(*types.Interface); !ok || ci.NumMethods() == 0 {
+				continue // opaque either way
+			}
+		}
+		if out == nil {
+			out = map[*types.TypeParam]types.Type{}
+		}
+		out[tps.At(i)] = a
+	}
+	return out
 }
 
 // paramNames lists contract-visible parameter names (receiver first).
@@ -323,10 +387,11 @@ func (v *Verifier) applyContract(st *State, fc *FuncContract, sig *types.Signatu
 	case fc.ModAll:
 		st.havocAll()
 	case len(fc.Modifies) > 0:
+		// the callee may allocate: pointers it leaves in the modified locations may be new blocks
+		st.bumpNext()
 		for _, m := range fc.Modifies {
 			v.havocLValue(st, env, m)
 		}
-		st.bumpNext()
 	case !fc.Pure || fc.Fresh:
 		st.bumpNext()
 	}
@@ -342,10 +407,22 @@ func (v *Verifier) applyContract(st *State, fc *FuncContract, sig *types.Signatu
 	env.old = old
 	v.bindResults(env, sig, fc, res)
 	for _, cl := range fc.Ensures {
+		if fc.mentionsGhostLocal(cl) {
+			continue // a postcondition over the callee's own ghost locals says nothing a caller can use
+		}
 		t := v.evalBoolIn(st, env, cl)
 		st.assumeTagged(t, cl.Label)
 	}
 	return res
+}
+
+func (fc *FuncContract) mentionsGhostLocal(cl *Clause) bool {
+	for name := range fc.GhostLocals {
+		if regexp.MustCompile(`\b` + regexp.QuoteMeta(name) + `\b`).MatchString(cl.Src) {
+			return true
+		}
+	}
+	return false
 }
 
 func (v *Verifier) bindResults(env *Env, sig *types.Signature, fc *FuncContract, res Value) {
@@ -477,6 +554,9 @@ func (v *Verifier) builtin(st *State, b *ssa.Builtin, call *ssa.CallCommon, args
 		k(st, r)
 	case "delete":
 		mt := call.Args[0].Type().Underlying().(*types.Map)
+		if st.top().depth == 0 {
+			v.checkMapFrame(st, args[0].L[0], mt, call.Pos(), "delete from "+describe(call.Args[0]))
+		}
 		v.mapDelete(st, mt, args[0].L[0], args[1])
 		k(st, Value{T: rt})
 	case "min", "max":
@@ -492,7 +572,13 @@ func (v *Verifier) builtin(st *State, b *ssa.Builtin, call *ssa.CallCommon, args
 			}
 		}
 		one(st.define(b.Name(), acc))
-	case "close", "print", "println":
+	case "close":
+		if len(args) == 1 && len(args[0].L) == 1 {
+			arr := st.mapArr("chan$closed", ArraySort(SInt, SBool))
+			st.maps["chan$closed"] = st.define("closed", Store(arr, args[0].L[0], TTrue))
+		}
+		k(st, Value{T: rt})
+	case "print", "println":
 		k(st, Value{T: rt})
 	case "recover":
 		// recover() is modelled as returning nil: panics are proved absent instead
@@ -980,6 +1066,48 @@ func (v *Verifier) checkFrame(st *State, addr, val Value, p token.Pos, addrExpr 
 	v.oblige(st, "frame", "store "+describe(addrExpr), Or(allowed...), p, nil)
 }
 
+// checkMapFrame: a map written (insert, overwrite, delete, clear) by a function that declares a
+// footprint must be a map made by this invocation, or the map that one of the declared locations held
+// on entry (or holds now: a location the function has re-pointed to another map of its own).
+func (v *Verifier) checkMapFrame(st *State, ref *Term, mt *types.Map, p token.Pos, what string) {
+	if v.fc == nil || !v.fc.frameChecked() || st.top().depth < 0 {
+		return
+	}
+	// a footprint that names only ghost variables says nothing about program memory (monitors write
+	// their guarded maps under the lock); map writes are checked once the contract names real
+	// locations or declares writes_nothing
+	real := v.fc.FrameStrict
+	for _, m := range v.fc.Modifies {
+		if id, ok := m.(CIdent); ok {
+			if _, isGhost := v.e.ct.GhostVars[id.Name]; isGhost {
+				continue
+			}
+		}
+		real = true
+	}
+	if !real {
+		return
+	}
+	fresh := Ge(ref, v.entry.next)
+	if fresh.IsTrue() {
+		return
+	}
+	allowed := []*Term{fresh, Eq(ref, IntLit(0))}
+	env := v.entryEnv(st)
+	env.old = v.entry
+	for _, m := range v.fc.Modifies {
+		loc, ok := v.evalLocOld(st, env, m)
+		if !ok || loc.whole || loc.size != 1 {
+			continue
+		}
+		if _, isMap := loc.typ.Underlying().(*types.Map); !isMap {
+			continue
+		}
+		allowed = append(allowed, Eq(ref, Select(Select(v.entry.memOf(KI), loc.blk), loc.off)))
+	}
+	v.oblige(st, "frame", "map write "+what, Or(allowed...), p, nil)
+}
+
 func (fc *FuncContract) frameChecked() bool {
 	return fc != nil && !fc.NoBody && !fc.ModAll && (fc.Pure || len(fc.Modifies) > 0 || fc.FrameStrict)
 }
@@ -1088,8 +1216,70 @@ func rootOfAddr(v ssa.Value) ssa.Value {
 	}
 }
 
+// atGhostTargets: ghost variables assigned by "ghost x = e" lines of the at-blocks attached to this call.
+func (v *Verifier) atGhostTargets(c *ssa.Call) []string {
+	if v.fc == nil {
+		return nil
+	}
+	var out []string
+	for _, ab := range v.fc.Ats {
+		if (len(ab.Ghosts) == 0 && len(ab.GhostsAfter) == 0) || ab.Callee == "backedge" || ab.Callee == "return" || !v.atBlockIs(ab, c) {
+			continue
+		}
+		for _, ga := range ab.Ghosts {
+			out = append(out, ghostRoot(ga.LHS))
+		}
+		for _, ga := range ab.GhostsAfter {
+			out = append(out, ghostRoot(ga.LHS))
+		}
+	}
+	return out
+}
+
+// atBlockIs: is c the call site the at-block names (n-th call, in source order, matching its callee pattern)?
+func (v *Verifier) atBlockIs(ab *AtBlock, c *ssa.Call) bool {
+	name, _ := v.callOrdinal(c)
+	if !atMatches(name, ab.Callee) {
+		return false
+	}
+	n := 0
+	for _, oc := range v.allCalls {
+		if atMatches(v.callNames[oc], ab.Callee) {
+			n++
+			if oc == c {
+				return n == ab.Ordinal
+			}
+		}
+	}
+	return false
+}
+
+func ghostRoot(e CExpr) string {
+	for {
+		switch x := e.(type) {
+		case CIdent:
+			return x.Name
+		case CIndex:
+			e = x.X
+		case CSel:
+			e = x.X
+		default:
+			return ""
+		}
+	}
+}
+
 func (v *Verifier) loopEffectsOf(li *LoopInfo) *loopEffects {
 	eff := &loopEffects{}
+	if v.fc != nil {
+		for _, ab := range v.fc.Ats {
+			if ab.Callee == "backedge" && ab.Ordinal == li.Ordinal {
+				for _, ga := range ab.Ghosts {
+					eff.ghosts = append(eff.ghosts, ghostRoot(ga.LHS))
+				}
+			}
+		}
+	}
 	seenFV := map[*ssa.FreeVar]bool{}
 	seenA := map[*ssa.Alloc]bool{}
 	fi := v.e.info(v.fn)
@@ -1138,6 +1328,7 @@ func (v *Verifier) loopEffectsOf(li *LoopInfo) *loopEffects {
 						}
 					}
 				}
+				eff.ghosts = append(eff.ghosts, v.atGhostTargets(ins)...)
 				if gs, ok := v.ghostOnlyModifies(&ins.Call); ok {
 					eff.ghosts = append(eff.ghosts, gs...)
 					continue
@@ -1349,6 +1540,10 @@ func (v *Verifier) havocLoop(st *State, li *LoopInfo) {
 				continue
 			}
 			seenG[g] = true
+			if cur, ok := st.glocals[g]; ok {
+				st.glocals[g] = st.freshValue("lp_"+g, cur.T)
+				continue
+			}
 			if gv, ok := v.e.ct.GhostVars[g]; ok {
 				if t, err := v.e.resolveType(gv.Type, gv.PkgPath); err == nil {
 					st.storeAt(v.e.ghostBlock(g), IntLit(0), st.freshValue("lp_"+g, t))
@@ -1406,6 +1601,7 @@ func (v *Verifier) checkPost(st *State, r *ssa.Return, res Value) {
 	env.old = v.entry
 	env.atReturn = true
 	v.bindResults(env, v.fn.Signature, v.fc, res)
+	v.checkReturnAts(st, env, r)
 	for _, ga := range v.fc.GhostAssigns {
 		v.ghostAssign(st, env, ga)
 	}
@@ -1415,6 +1611,60 @@ func (v *Verifier) checkPost(st *State, r *ssa.Return, res Value) {
 		}
 		t := v.evalBoolIn(st, env, cl)
 		v.oblige(st, "post", clauseLabel(cl, i), t, r.Pos(), cl)
+	}
+}
+
+// checkReturnAts: "at return #n" blocks belong to the n-th return statement (in source order). Their
+// assertions may name locals (which exported postconditions cannot); their ghost assignments record
+// what the function saw on that path, so that a postcondition over the ghost is checked per path.
+func (v *Verifier) checkReturnAts(st *State, env *Env, r *ssa.Return) {
+	has := false
+	for _, ab := range v.fc.Ats {
+		if ab.Callee == "return" {
+			has = true
+		}
+	}
+	if !has {
+		return
+	}
+	var rets []*ssa.Return
+	for _, b := range v.fn.Blocks {
+		if b == v.fn.Recover {
+			continue // the synthetic return of the recover block
+		}
+		for _, ins := range b.Instrs {
+			if x, ok := ins.(*ssa.Return); ok {
+				rets = append(rets, x)
+			}
+		}
+	}
+	// the implicit return at the end of a function without results has no position: it is the last one
+	rpos := func(r *ssa.Return) token.Pos {
+		if !r.Pos().IsValid() {
+			return token.Pos(1 << 40)
+		}
+		return r.Pos()
+	}
+	sort.SliceStable(rets, func(i, j int) bool { return rpos(rets[i]) < rpos(rets[j]) })
+	ord := 0
+	for i, x := range rets {
+		if x == r {
+			ord = i + 1
+		}
+	}
+	for _, ab := range v.fc.Ats {
+		if ab.Callee != "return" || ab.Ordinal != ord {
+			continue
+		}
+		ab.seen = true
+		for i, cl := range ab.Asserts {
+			t := v.evalBoolIn(st, env, cl)
+			v.oblige(st, "assert", fmt.Sprintf("at return#%d:%s", ab.Ordinal, clauseLabel(cl, i)), t, r.Pos(), cl)
+			st.assumeTagged(t, cl.Label)
+		}
+		for _, ga := range ab.Ghosts {
+			v.ghostAssign(st, env, ga)
+		}
 	}
 }
 
@@ -1429,6 +1679,17 @@ func (v *Verifier) ghostAssign(st *State, env *Env, ga GhostAssign) {
 		}
 	}()
 	rhs := env.eval(st, ga.RHS)
+	if id, ok := ga.LHS.(CIdent); ok && v.fc != nil {
+		if _, isLocal := v.fc.GhostLocals[id.Name]; isLocal {
+			cur := st.glocals[id.Name]
+			if len(rhs.L) != len(cur.L) {
+				v.fail("ghost assignment %q: shape mismatch", ga.Src)
+			}
+			rhs.T = cur.T
+			st.glocals[id.Name] = rhs
+			return
+		}
+	}
 	// map element
 	if ix, ok := ga.LHS.(CIndex); ok {
 		m := env.eval(st, ix.X)
